@@ -23,7 +23,9 @@ def graph(ctx, g, cls, w, x, maxrest):
     """no history variable: the finite state graph = histories of unbounded length"""
     c = consts_for(g, cls, w, x, 0, False, maxrest)
     label = "MC_History/graph[%s,%s,w=%d,x=%d,restores<=%d,unbounded length]" % (g, cls, w, x, maxrest)
-    ctx.mc("MC_History", cfg(spec="HSpec", constants=c, invariants=INVS, properties=["ScalarStable"]), label=label)
+    # RefinesLifecycle: every step is a step of the value-free Lifecycle machine (whose properties are inductive)
+    ctx.mc("MC_History", cfg(spec="HSpec", constants=c, invariants=INVS + ["LifecycleInv"],
+                             properties=["ScalarStable", "RefinesLifecycle"]), label=label)
     ws = ["NoWitnessKeyAfterFailure"]
     ctx.witness("MC_History", cfg(spec="HSpec", constants=c, invariants=ws), ws, label=label)
 
@@ -88,8 +90,41 @@ def class_matches(real, spec):
     return all(s == r or (s == "Rejected" and r not in ("msg", "key", "blob", "inst")) for r, s in zip(real, spec))
 
 
+def lifecycle_induction(ctx):
+    """Histories of ANY length: Lifecycle.tla (the flags-and-counters skeleton that Spake2.tla refines, see
+    RefinesLifecycle above) has an inductive invariant implying the counting properties of C07/C11; Apalache
+    discharges base case, induction step and IndInv => Safety, and must find the counterexample when a second
+    message is allowed (vacuity guard).  Recorded in the evidence; not decisive (TLC on the bounded models and the
+    trace validation decide), so an unavailable apalache-mc does not break the check."""
+    import subprocess, shutil as _sh
+    work = os.path.join(scratch(), "apalache")
+    os.makedirs(work, exist_ok=True)
+    for f in ("Lifecycle.tla", "Lifecycle_apa.tla"):
+        _sh.copy(os.path.join(VERIF, "spec", f), work)
+    runs = [("base: LInit => IndInv", ["--init=LInit", "--inv=IndInv", "--length=0", "--next=LNext"], False),
+            ("step: IndInv /\\ LNext => IndInv'", ["--init=IndInit", "--inv=IndInv", "--length=1", "--next=LNext"], False),
+            ("IndInv => Safety", ["--init=IndInit", "--inv=Safety", "--length=0", "--next=LNext"], False),
+            ("guard: a second message breaks the induction", ["--init=IndInit", "--inv=IndInv", "--length=1", "--next=BadNext"], True)]
+    res = {}
+    try:
+        for name, args, expect_cex in runs:
+            r = subprocess.run(["apalache-mc", "check"] + args + ["--out-dir=" + os.path.join(work, "out"), "Lifecycle_apa.tla"],
+                               cwd=work, capture_output=True, text=True, timeout=900,
+                               env=dict(os.environ, JVM_ARGS="-Xmx4g", TMPDIR=work))
+            out = r.stdout + r.stderr
+            ok, cex = "EXITCODE: OK" in out, "EXITCODE: ERROR (12)" in out
+            res[name] = "holds" if ok else "counterexample" if cex else "no verdict"
+            if (ok or cex) and cex != expect_cex:
+                raise MachineryError("Apalache: '%s' gave %s\n%s" % (name, res[name], out[-1500:]))
+    except (OSError, subprocess.TimeoutExpired) as e:
+        res["status"] = "apalache-mc unavailable: %s" % type(e).__name__
+    ctx.cov["lifecycle_inductive_invariant_apalache"] = res
+    _sh.rmtree(work, True)
+
+
 def run(ctx):
     thorough = ctx.tier == "thorough"
+    lifecycle_induction(ctx)
     for g, cls, r in ([("i11", c, 3) for c in "ABS"] + [("ed37", c, 2) for c in "ABS"] if thorough
                       else [("i11", "A", 2), ("i11", "S", 1), ("ed37", "B", 1)]):
         graph(ctx, g, cls, 1, 2, r)
